@@ -978,6 +978,8 @@ func (r *PipelineRunner) cancelJobInternal(id uuid.UUID) error {
 
 	cancelFunc := job.sched.Cancel
 
+	r.verifEvent("cancel-spawned", id)
+
 	r.wg.Add(1)
 	go (func() {
 		cancelFunc()
@@ -988,6 +990,8 @@ func (r *PipelineRunner) cancelJobInternal(id uuid.UUID) error {
 }
 
 func (r *PipelineRunner) StartDelayedJob(id uuid.UUID) {
+	defer r.verifEvent("delay-handler", id)()
+
 	r.mx.Lock()
 	defer r.mx.Unlock()
 
